@@ -76,12 +76,23 @@ class Driver:
 
     def write_workflow(self):
         lines = ["from gwf import Workflow", "gwf = Workflow()"]
-        for t in self.order:
+        for k, t in enumerate(self.order):
             prot = sorted(self.w["prot"][t])
+            ins, outs = sorted(self.w["in"][t]), sorted(self.w["out"][t])
+            if self.variant % 3 == 1:
+                # the other documented way of writing a target: create it, then add files to its lists in place
+                lines.append(
+                    "t%d = gwf.target(%r, inputs=%r, outputs=%r%s) << %r"
+                    % (k, self.perm[t], ins[:-1], outs[:-1], ", protect=%r" % prot if prot else "", self.text(t, self.specv[t]))
+                )
+                if ins:
+                    lines.append("t%d.inputs.append(%r)" % (k, ins[-1]))
+                if outs:
+                    lines.append("t%d.outputs.extend([%r])" % (k, outs[-1]))
+                continue
             lines.append(
                 "gwf.target(%r, inputs=%r, outputs=%r%s) << %r"
-                % (self.perm[t], sorted(self.w["in"][t]), sorted(self.w["out"][t]),
-                   ", protect=%r" % prot if prot else "", self.text(t, self.specv[t]))
+                % (self.perm[t], ins, outs, ", protect=%r" % prot if prot else "", self.text(t, self.specv[t]))
             )
         self.sb.write("workflow.py", "\n".join(lines) + "\n")
 
@@ -201,9 +212,27 @@ class Driver:
                 j["st"] = "CA" if st == "CANCELLED" else "FAIL"
                 self.events.append({"act": "JobVanished", "t": j["tgt"], "j": j["id"], "st": st})
 
+    def read_tracked(self):
+        """The target -> job id map as gwf itself would load it in its next invocation (whatever files it keeps it
+        in); None = nothing recorded, "UNREADABLE" = gwf's own loader fails on what is on disk."""
+        try:
+            from gwf.backends.base import TrackingBackend
+
+            class _NoScheduler:
+                def get_job_states(self, ids):
+                    return {}
+
+            tb = TrackingBackend(working_dir=self.sb.proj, name=self.gwf_backend, ops=_NoScheduler())
+            d = getattr(tb, "_tracked_jobs")
+            return dict(d) if d else None
+        except (ValueError, OSError):
+            return "UNREADABLE"
+        except Exception:  # noqa: BLE001   (the loader's interface changed: fall back to the documented file)
+            return self.sb.read_json(".gwf/%s-backend-tracked.json" % self.gwf_backend)
+
     def after(self):
         sb = self.sb
-        trk_raw = sb.read_json(".gwf/%s-backend-tracked.json" % self.gwf_backend)
+        trk_raw = self.read_tracked()
         hsh_raw = sb.read_json(".gwf/spec-hashes.json")
         trk_ok = trk_raw != "UNREADABLE"
         hsh_ok = hsh_raw != "UNREADABLE"
@@ -322,14 +351,15 @@ class Driver:
         """h = RunBegin entry; rest = following history entries up to and including the run's terminator."""
         sb = self.sb
         if self.backend == "local":
-            return self.step_run_local(h)
+            return self.step_run_local(h, rest)
         term = rest[-1]
         nsub = sum(1 for x in rest if x["act"] == "RunSubmit")
         cmd = SUBMIT[self.backend]
         faults = []
         sub = self.sub
         if term["act"] == "RunReject":
-            faults = [(cmd, nsub + 1, self.rng.choice(["exit1", "stderr"] if self.backend != "lsf" else ["exit1", "stderr", "garbage"]))]
+            faults = [(cmd, nsub + 1, self.rng.choice({"lsf": ["exit1", "stderr", "garbage"], "slurm": ["exit1", "stderr", "depfail", "depfail"],
+                                                          "slurm_noacct": ["exit1", "stderr", "depfail", "depfail"]}.get(self.backend, ["exit1", "stderr"])))]
         elif term["act"] == "Crash":
             faults = [(cmd, nsub + 1, "killparent")]
             sub = True
@@ -373,10 +403,55 @@ class Driver:
             self.adversarial_drain()   # (with "drain": every recovery run after a failure or cancellation)
             self.step_status({"sel": []})   # look at the result at once (a status query is always legal)
 
-    def step_run_local(self, h):
+    def step_run_local(self, h, rest=()):
+        """Interruptions on the local back end: the pool fails on the k-th enqueue request (the connection
+        drops: RunReject), the gwf process is killed when its k-th request arrives (Crash), or gwf dies inside
+        the final write of a state file (CrashWrite, same killing writer as for the cluster back ends)."""
         self.local_sync()
+        term = rest[-1] if rest else {"act": "RunEnd"}
+        nsub = sum(1 for x in rest if x["act"] == "RunSubmit")
         self.events.append({"act": "RunBegin", "sel": h["sel"]})
-        r, calls, obs = self.observe_cmd(["run"] + self.names(h["sel"]), sub=False)
+        pool = self.pool
+        pool.run_enq, nref = 0, len(pool.refused)
+        killenv, killed = None, []
+        if term["act"] == "RunReject":
+            pool.fault = (nsub + 1, None)
+            r, calls, obs = self.observe_cmd(["run"] + self.names(h["sel"]), sub=False)
+        elif term["act"] == "Crash":
+            import subprocess
+            import sys
+
+            sig0, dig0 = self.hashfile_sig(), self.sb.digest()
+            cwd = self.sb.path(self.subdir) if self.subdir else self.sb.proj
+            p = subprocess.Popen([sys.executable, "-c", "from gwf.cli import main; main()", "run"] + self.names(h["sel"]), cwd=cwd,
+                                 env=self.sb.env(), stdout=subprocess.PIPE, stderr=subprocess.PIPE, text=True)
+
+            def kill():
+                import signal
+                import time as _t
+
+                killed.append(True)
+                os.kill(p.pid, signal.SIGKILL)
+                for _ in range(400):      # the client is dead before the pool goes on
+                    try:
+                        if open("/proc/%d/stat" % p.pid).read().rsplit(")", 1)[-1].split()[0] == "Z":
+                            break
+                    except OSError:
+                        break
+                    _t.sleep(0.005)
+
+            pool.fault = (nsub + 1, kill)
+            out, err = p.communicate(timeout=120)
+            after, trk_ok, hsh_ok = self.after()
+            obs = {"exit": p.returncode, "exc": "", "after": after, "trk_ok": trk_ok, "hsh_ok": hsh_ok, "pure": False,
+                   "hashfile_same": self.hashfile_sig() == sig0, "sacct_called": False, "stderr": (err or "")[-400:]}
+        elif term["act"] == "CrashWrite":
+            fname = "backend-tracked.json" if term["file"] == "trk" else "spec-hashes.json"
+            killenv = {"GWFV_KILL_FILE": fname, "GWFV_KILL_OCC": "1", "GWFV_KILL_POS": str(self.rng.choice([0, 1, 2, 99, 100, 101, 102, 200, 200, 201]))}
+            r, calls, obs = self.observe_cmd(["run"] + self.names(h["sel"]), killenv=killenv)
+        else:
+            r, calls, obs = self.observe_cmd(["run"] + self.names(h["sel"]), sub=False)
+        pool.fault = None
         new = self.pool.enqueued[self.seen_enq:]
         self.seen_enq = len(self.pool.enqueued)
         for tid, name, deps in new:
@@ -391,7 +466,15 @@ class Driver:
             self.local_trk[t] = (tid, jid)
             self.events.append({"act": "RunSubmit", "t": t, "id": jid, "hold": hold, "kind": "local" if hold else "none", "bad": ""})
         obs["after"] = self.after()[0]   # tracked ids are interpreted with the submissions just recorded
-        obs.update(act="RunEnd")
+        refused = [self.inv.get(n, str(n)) for n in pool.refused[nref:]]
+        if killenv and obs["exit"] == 137:
+            obs.update(act="CrashWrite", file=term["file"], kill=killenv)
+        elif killed:
+            obs.update(act="Crash", after_n=nsub)
+        elif refused:
+            obs.update(act="RunReject", t=refused[0], fault="pool failed on the request")
+        else:
+            obs.update(act="RunEnd")
         self.events.append(obs)
         self.local_sync()
 
@@ -554,7 +637,8 @@ class Driver:
                 rj = self.real_of(sj)
                 if rj is not None:
                     refused.append(rj["id"])
-        sb.set_refuse([str(j + FIRST_ID - 1) for j in refused])
+        # (a third of the refusals are silent ones: non-zero exit, the complaint on stdout, nothing on stderr)
+        sb.set_refuse([str(j + FIRST_ID - 1) for j in refused], silent=self.backend in ("sge", "lsf") and (self.variant + len(self.events)) % 3 == 0)
         r, calls, obs = self.observe_cmd(args + self.names(h["sel"]) + nomatch, input=inp)
         sb.set_refuse([])
         reqs = []
@@ -596,6 +680,22 @@ class Driver:
             sb.set_file(h["f"], None)
         elif a == "EditSpec":
             self.specv[h["t"]] += 1
+            self.write_workflow()
+        elif a in ("Rename", "RenameBack"):
+            if self.backend == "local":
+                return
+            self.perm0 = getattr(self, "perm0", None) or dict(self.perm)
+            away = self.perm[h["t"]] != self.perm0[h["t"]]
+            if away == (a == "Rename"):
+                return      # does not apply to the real project (history diverged)
+            self.perm = dict(self.perm)
+            if a == "Rename":
+                # a new, never used name; what is stored under the old one stays where it is
+                self.renames = getattr(self, "renames", 0) + 1
+                self.perm[h["t"]] = "%s_r%d" % (self.perm0[h["t"]], self.renames)
+            else:
+                self.perm[h["t"]] = self.perm0[h["t"]]
+            self.inv = {v: k for k, v in self.perm.items()}
             self.write_workflow()
         elif a == "SetUseHash":
             self.use_hash = bool(h["v"])
@@ -770,7 +870,7 @@ class Driver:
                 self.step_clean(h)
             elif a == "Cancel":
                 self.step_cancel(h)
-            elif a in ("EditSource", "DeleteOutput", "EditSpec", "SetUseHash"):
+            elif a in ("EditSource", "DeleteOutput", "EditSpec", "SetUseHash", "Rename", "RenameBack"):
                 self.step_env(h)
             elif a in ("JobStart", "JobEnd", "Purge", "JobInherit", "JobStick", "JobUnstick"):
                 self.step_sched(h)
